@@ -155,7 +155,7 @@ def leg_emit(rnd, rundir, n):
     recs = []
     # (1) client requests at the raw recording peer
     for kind in ("tcp", "unix"):
-        peer = netpeer.RecordingPeer(unix_path=(rundir + "/emit%d.sock" % rnd.randint(0, 10 ** 9)) if kind == "unix" else None)
+        peer = netpeer.RecordingPeer(unix_path=(rundir + "/emit%d.sock" % rnd.randint(0, 10 ** 9)) if kind == "unix" else None, probe_excess=True)
         for _ in range(n):
             cfg = jsonrpclib.config.Config(content_type=rnd.choice(["application/json-rpc", "application/json", "application/jsonrequest"]))
             ws = [rnd.randint(1, 4) for _ in range(rnd.randint(0, 12))]
@@ -163,8 +163,15 @@ def leg_emit(rnd, rundir, n):
             p = jsonrpc.ServerProxy(peer.url(), config=cfg, version=rnd.choice([1.0, 2.0]))
             n0 = len(peer.requests)
             try:
-                style = rnd.choice(["call", "notify", "batch"])
-                if style == "call":
+                style = rnd.choice(["call", "notify", "batch", "rawbody"])
+                if style == "rawbody":
+                    # the transport's own entry point, handed a body that was not escaped to ASCII
+                    body = json.dumps({"jsonrpc": "2.0", "id": 1, "method": "echo", "params": [arg + "é€𝄞"]}, ensure_ascii=False)
+                    try:
+                        p("transport").request(p._ServerProxy__host, "/", body)
+                    except jsonrpc.ProtocolError:
+                        pass
+                elif style == "call":
                     p.echo(arg)
                 elif style == "notify":
                     p._notify.echo(arg)
@@ -181,7 +188,7 @@ def leg_emit(rnd, rundir, n):
             for (nm, v) in (reqs[0]["headers"] if reqs else []):
                 hd.setdefault(nm.lower(), []).append(v)
             recs.append({"leg": "emit", "who": "client-" + kind, "clen": hd.get("content-length", ["?"]), "ctype": hd.get("content-type", ["?"]),
-                         "outlen": str(len(reqs[0]["body"])) if reqs else "?", "cfgtype": cfg.content_type, "err": err, "nreq": len(reqs)})
+                         "outlen": str(len(reqs[0]["body"]) + reqs[0].get("excess", 0)) if reqs else "?", "cfgtype": cfg.content_type, "err": err, "nreq": len(reqs)})
             try:
                 p("close")()
             except BaseException:  # noqa
@@ -272,7 +279,8 @@ def leg_target(rnd, peer):
     recs = []
     paths = ["", "/", "/a/b", "/a%20b/c%2Fd", "/RPC2", "/x/", "//double", "/%C3%A9"]
     queries = ["", "q=1", "a=1&b=%26", "x", "k=v=w"]
-    schemes = ["http", "https", "unix+http", "ftp", "", "ws", "unix+ftp", "file", "gopher", "unix+", "httpx"]
+    schemes = ["http", "https", "unix+http", "ftp", "", "ws", "unix+ftp", "file", "gopher", "unix+", "httpx",
+               "git+http", "svn+https", "foo+http", "http+unix", "unix+unix+http", "unixhttp", "+http", "x-unix+http"]
     for scheme in schemes:
         for path in paths:
             for query in queries:
